@@ -7,7 +7,7 @@ import SplinkVerif.Model.Rel
 * `eraseDups`: duplicate-freeness, permutation invariance;
 * evaluation equations and membership characterisations for every constructor of `Rel`
   (`project`, `filter`, inner / left `join`, `union`, `distinct`, `groupBy`, `whereIn`; evaluation equations also
-  for the window functions `window`, `windowCum`);
+  for the window functions `window`, `windowCum`, `rowNumber`);
 * duplicate-freeness of `UNION`, `DISTINCT`, `GROUP BY` results;
 * look-up joins (every left row has exactly one partner);
 * `minVals` on integer lists;
@@ -271,6 +271,13 @@ theorem eval_whereIn (db : Db) (neg : Bool) (e : Expr) (sub r : Rel) :
 theorem eval_window (db : Db) (part : List Expr) (agg : Agg) (r : Rel) :
     (Rel.window part agg r).eval db = (r.eval db).map fun row =>
       row ++ [agg.eval ((r.eval db).filter fun x => part.map (·.eval x) == part.map (·.eval row))] := rfl
+
+theorem eval_rowNumber (db : Db) (part : List Expr) (key : Expr) (desc : Bool) (r : Rel) :
+    (Rel.rowNumber part key desc r).eval db = (r.eval db).map fun row =>
+      row ++ [.int (1 + (((r.eval db).filter fun x =>
+        part.map (·.eval x) == part.map (·.eval row) &&
+          (if desc then Cmp.gt.eval (key.eval x) (key.eval row) else Cmp.lt.eval (key.eval x) (key.eval row))
+            == .bool true).length : Nat))] := rfl
 
 theorem eval_windowCum (db : Db) (key : Expr) (desc : Bool) (agg : Agg) (r : Rel) :
     (Rel.windowCum key desc agg r).eval db = (r.eval db).map fun row =>
@@ -669,6 +676,7 @@ def AggsOK (db : Db) : Rel → Prop
   | .whereIn _ _ sub r => AggsOK db sub ∧ AggsOK db r
   | .window _ agg r => AggsOK db r ∧ AggOK (r.eval db) agg
   | .windowCum _ _ agg r => AggsOK db r ∧ AggOK (r.eval db) agg
+  | .rowNumber _ _ _ r => AggsOK db r
 
 /-- A window column: every row gets the aggregate over the rows selected by `sel row`. -/
 theorem windowRows_perm {rows rows' : List Row} (p : rows.Perm rows') {agg : Agg} (h : AggOK rows agg)
@@ -774,6 +782,13 @@ theorem eval_perm {db db' : Db} (h : ∀ name, (db name).Perm (db' name)) :
     exact windowRows_perm (eval_perm h r hr.1) hr.2
       (fun row x => (if desc then Cmp.ge.eval (key.eval x) (key.eval row)
         else Cmp.le.eval (key.eval x) (key.eval row)) == .bool true)
+  | .rowNumber part key desc r, hr => by
+    rw [eval_rowNumber, eval_rowNumber]
+    have p := eval_perm h r hr
+    refine (p.map _).trans (List.Perm.of_eq ?_)
+    apply List.map_congr_left
+    intro row _
+    rw [(p.filter _).length_eq]
 
 /-- The statements are `AggsOK` in the databases they are run in. -/
 def StmtsOK (db : Db) : List Stmt → Prop
